@@ -24,6 +24,8 @@ type YieldRec struct {
 	pre   int // snapshot index before own transaction (after the environment step)
 	post  int
 	envPre int // snapshot before the environment step
+	outcome string // router: match|nomatch|error; sender: success|fail|error
+	recv   Value
 }
 
 type CoroObj struct {
@@ -168,14 +170,18 @@ func (ex *Exec) submit(c *CoroObj, sub Value) (Value, Value) {
 		rcT := ex.T("internal/kernel/t_aio", "RouterCompletion")
 		switch ex.choose(3, nil, "router-outcome") {
 		case 0:
+			rec.outcome = "nomatch"
 			rc := ex.newStruct(rcT)
 			ex.fset(comp, compT, "Router", rc)
 		case 1:
+			rec.outcome = "match"
 			rc := ex.newStruct(rcT)
 			ex.fset(rc, rcT, "Matched", tt.Bool(true))
-			ex.fset(rc, rcT, "Recv", &BytesV{isNil: tt.Bool(false), s: ex.input("router.recv", "bytes", SString)})
+			rec.recv = &BytesV{isNil: tt.Bool(false), s: ex.input("router.recv", "bytes", SString)}
+			ex.fset(rc, rcT, "Recv", rec.recv)
 			ex.fset(comp, compT, "Router", rc)
 		case 2:
+			rec.outcome = "error"
 			errv = ex.opaqueErr("router: failure")
 			comp = &PtrV{typ: types.NewPointer(compT)}
 		}
@@ -185,13 +191,16 @@ func (ex *Exec) submit(c *CoroObj, sub Value) (Value, Value) {
 		scT := ex.T("internal/kernel/t_aio", "SenderCompletion")
 		switch ex.choose(3, nil, "sender-outcome") {
 		case 0:
+			rec.outcome = "success"
 			sc := ex.newStruct(scT)
 			ex.fset(sc, scT, "Success", tt.Bool(true))
 			ex.fset(comp, compT, "Sender", sc)
 		case 1:
+			rec.outcome = "fail"
 			sc := ex.newStruct(scT)
 			ex.fset(comp, compT, "Sender", sc)
 		case 2:
+			rec.outcome = "error"
 			errv = ex.opaqueErr("sender: failure")
 			comp = &PtrV{typ: types.NewPointer(compT)}
 		}
@@ -379,6 +388,16 @@ func init() {
 	})
 	vx("YieldTime", func(ex *Exec, fr *Frame, a []Value, s ssa.Instruction) Value {
 		return ex.W.yields[ex.concreteInt(a[0], "yield index")].time
+	})
+	vx("YieldOutcome", func(ex *Exec, fr *Frame, a []Value, s ssa.Instruction) Value {
+		return ex.tt.Str(ex.W.yields[ex.concreteInt(a[0], "yield index")].outcome)
+	})
+	vx("YieldRecv", func(ex *Exec, fr *Frame, a []Value, s ssa.Instruction) Value {
+		r := ex.W.yields[ex.concreteInt(a[0], "yield index")].recv
+		if r == nil {
+			return &BytesV{isNil: ex.tt.Bool(true), s: ex.tt.Str("")}
+		}
+		return r
 	})
 	vx("YieldSub", func(ex *Exec, fr *Frame, a []Value, s ssa.Instruction) Value {
 		return ex.W.yields[ex.concreteInt(a[0], "yield index")].sub
